@@ -57,6 +57,10 @@ def sequences(tier):
             if pos != 0:
                 vals[pos] = "(i 77)"
             seqs.append(("arr", "[" + ", ".join(srcs) + "]", vals, "idf := (x: any) -> any { return x }; cell := mut 77; "))
+    # `[v; n]` with a run-time element and a constant length, indexed / sliced by constants: another instruction-level path
+    for n in ([0, 1, 3] if tier == "quick" else [0, 1, 2, 3, 5]):
+        seqs.append(("arr", "[idf(10); %d]" % n, ["(i 10)"] * n, "idf := (x: any) -> any { return x }; cell := mut 77; "))
+        seqs.append(("arr", "[*cell; %d]" % n, ["(i 77)"] * n, "idf := (x: any) -> any { return x }; cell := mut 77; "))
     strs = ["", "abcd", "aé\U0001F600b́c"] if tier == "quick" else ["", "a", "abcdef", "aé\U0001F600b́c", "中文", "x\U0001F600"]
     for s in strs:
         seqs.append(("str", src_str(s), list(s)))
